@@ -100,7 +100,10 @@ def check_C15(tier):
                      ("tag (empty string)", dict(op="expand", cmd="echo {t:g} > {o:out}", outs={"out": "o.txt"}, ins={}, params={}, tags={"g": ""})),
                      ("parameter (empty string) under a modifier", dict(op="expand", cmd="echo {p:v|basename} > {o:out}", outs={"out": "o.txt"}, ins={}, params={"v": ""}, tags={})),
                      ("in-port", dict(op="expand", cmd="cat {i:in} > {o:out}", outs={"out": "o.txt"}, ins={}, params={}, tags={})),
-                     ("parameter in an output path", dict(op="expand", cmd="echo x > {o:out}", outs={"out": "o_{p:v}.txt"}, ins={}, params={}, tags={}))):
+                     ("parameter in an output path", dict(op="expand", cmd="echo x > {o:out}", outs={"out": "o_{p:v}.txt"}, ins={}, params={}, tags={})),
+                     ("tag in an output path", dict(op="expand", cmd="echo x > {o:out}", outs={"out": "o_{t:g}.txt"}, ins={}, params={}, tags={})),
+                     ("tag in an output path (another tag is present)", dict(op="expand", cmd="echo x > {o:out}", outs={"out": "res/{t:in.lane}/o.txt"}, ins={"in": "d/x.txt"}, params={}, tags={"in.who": "me"})),
+                     ("in-port in an output path", dict(op="expand", cmd="echo x > {o:out}", outs={"out": "{i:nope|basename}.o.txt"}, ins={}, params={}, tags={}))):
         died, out = dies(q)
         chk.evaluations += 1
         if not died:
